@@ -426,6 +426,11 @@ func OpenFile(path string, flag int, perm os.FileMode) (*File, error) {
 	if err := Begin(op, path); err != nil {
 		return nil, PathErr("open", path, err)
 	}
+	// events are generated for the directory entry the kernel really touches: a write through
+	// a symbolic link modifies the link's target, not an entry of the link's directory
+	if resolved, err := filepath.EvalSymlinks(path); err == nil {
+		path = resolved
+	}
 	existed := exists(path)
 	var oldSize int64
 	if fi, err := os.Stat(path); err == nil {
